@@ -101,7 +101,7 @@ def stage(repo=None, quiet=True):
     return final
 
 
-def _prune(keep, n=4):
+def _prune(keep, n=16):
     ds = []
     for d in os.listdir(STAGE_ROOT):
         p = os.path.join(STAGE_ROOT, d)
